@@ -58,7 +58,7 @@ let diag_line_str nm = function
 let diag_text nm g (sts : lrstate list) (tb : entry list list) =
   let b = Buffer.create 4096 in
   Buffer.add_string b "RULES\n\n";
-  List.iteri (fun i _ -> Buffer.add_string b (Printf.sprintf "%d    %s\n" i (rule_diag nm g i))) g.rule_infos;
+  List.iteri (fun i (ri : rule_info) -> Buffer.add_string b (Printf.sprintf "%d    %s\n" (int_of_nat ri.ri_r) (rule_diag nm g i))) g.rule_infos;
   Buffer.add_string b "\nSTATES\n\n";
   List.iteri (fun i (st : lrstate) ->
     Buffer.add_string b (Printf.sprintf "STATE %d\n" i);
